@@ -15,6 +15,9 @@ CHECKS = {
  "C03": ("6/C03", "TLA+ CborEncode.Encode evaluated by TLC on every logged tree (Trace_Serialize); TLC model check MC_RoundTrip: Encode vs the reference decoder on a bounded tree space",
          "TLC checks on a bounded tree space (all types and stored widths, boundary values, chunked strings, depth 2) that the specified encoding is decoded by the independently specified reference decoder into an equal tree and re-encodes identically. For every tree obtained from the real construction API or decoder, TLC computes Encode(tree) and requires the real serializer's bytes to be identical, the reload to consume all bytes and give an equal tree (NaN = NaN), and re-serialization to be identical.",
          "Trusted: TLC; recorder logs trees through public getters. Tree space: seeded random construction histories and decoded random encodings (see evidence rule)."),
+ "C04": ("6/C04", "TLA+ CborItems (reference-counted object graph + ghost client reference bag), TLC exhaustive model check per operation family (MC_Items_*), TLC trace validation of recorded API histories with state comparison after every call (Trace_Items)",
+         "TLC explores every rule-following history over pools of 3-4 items for each operation family (arrays incl. move/set/replace/get, maps, tags incl. the documented set-item transfer, chunked strings, copy) and shows refcount = client references + in-edges, no touch after release, single release, and no leak once the client holds nothing. Seeded random histories over the real API (incl. shared sub-items, copy, load) are then replayed by TLC through the same actions: after every call the refcount of every reachable item, container contents and the client's bag must equal the spec state; at the end the allocator must hold nothing.",
+         "Trusted: TLC, recorder (ids = allocator serial numbers, state through public getters). Preconditions are re-checked by the spec. ASan observes use after release."),
  "C05": ("6/C05", "TLA+ CborGrammar.Admissible (code, position) oracle incl. the permitted lazy report; TLC model check; TLC trace validation of failing cbor_load executions with pre-filled result struct",
          "TLC checks machine = grammar on error code and position for all bounded head strings (incl. nesting limit and refused allocation). Every failing real execution is judged by TLC: NULL, nothing left allocated, all three result fields written, (code, position) in the admissible set computed by the grammar from the logged heads; eager and lazy reports of an item opened inside a chunked string are both accepted.",
          "Trusted: TLC, recorder (result struct pre-filled with 0xAB; raw field values logged). Bounded input space."),
@@ -30,6 +33,9 @@ CHECKS = {
  "C11": ("6/C11", "TLC trace validation of recorded cbor_copy cases (Trace_Serialize, C11 clauses): shape, refcounts, address disjointness, byte equality, source unchanged, independence under mutation/release; ASan",
          "For every tree of the C03 space (incl. shared sub-items, empty containers, zero-chunk strings, 64-bit integers) TLC judges the logged copy: same flat shape and content, every refcount 1, no node or buffer address in common, same serialization, source contents and refcounts unchanged; the copy is then modified and released and the source re-serialized, and a copy of a copy must survive the release of the first.",
          "Trusted: TLC, recorder; use-after-free through sharing is observed by ASan."),
+ "C12": ("6/C12", "TLA+ CborItems containers (capacity, growth, bounded/unbounded sequence semantics), TLC model check (MC_Items arr/map/chunk), TLC trace validation of container histories and of growth runs (Trace_Items, C12 clauses)",
+         "TLC checks on the small pool that definite containers refuse exactly at capacity, out-of-range indexes are refused without change, size never exceeds capacity and growth is logarithmic. Real histories of push/set/replace/get (indexes 0..size+2), map add and add chunk on capacities 0..8 are replayed step by step against the abstract sequence; insertion runs up to thousands of elements are judged on logged capacity changes and allocator-counted reallocations.",
+         "Trusted: TLC, recorder, allocator counters; the capacity after a growth step is read from the real container (any legal geometric policy is accepted). ASan observes out-of-bounds."),
  "C14": ("6/C14", "TLA+ reference decoder CborLoadRef (tokenisation + grammar) evaluated by TLC on logged bytes; TLC model check of the machine stopping at the first item; trace validation (Trace_Sequence)",
          "For every (x, y) pair and every concatenation recorded from the real cbor_load, TLC computes from the logged bytes what x denotes and requires x and x.y to give that tree and read = |x|, and the cbor_sequence loop to split a concatenation into exactly its items ending at the buffer end.",
          "Trusted: TLC, recorder. x ranges over seeded random well-formed items; y over empty, single bytes (all 256 for the first 12 x), items, garbage, structural bytes."),
